@@ -172,7 +172,7 @@ def _strategy(tame=False):
         "curt": st.booleans(),
         "tame": st.just(tame),
         "extra": st.one_of(st.integers(0, 12), st.integers(0, 12), st.integers(0, 60), st.integers(0, 400), st.none()),
-        "signer": st.integers(0, 2),
+        "signer": st.sampled_from([0, 1, 2, 4]),       # 4: transferable signer whose current key differs from the one in its vid
         "authic": st.booleans(),
         "memos": st.lists(text, min_size=1, max_size=3),
         "order": st.one_of(st.lists(st.integers(0, 200), max_size=40), st.lists(st.integers(0, 200), min_size=5, max_size=60)),
